@@ -136,14 +136,15 @@ Definition T_DC : xtype := XPrim DOUBLE_COMPLEX 16.
 (* double _Complex f(void): 16 bytes (8 before the fix);  long double f(int, long double, struct{40}) ... *)
 Example C14_sizes :
   size_of_a 0 T_DC = 16 /\ size_of_a 1 T_LD = 16 /\ size_of_a 0 XVoid = 8 /\ size_of_a 3 T_INT = 24 /\
-  size_of_a 1 (XStructOrUnion 40) = 40 /\ size_of_a 7 (XStructOrUnion 40) = 56 /\
-  map store_bytes [T_INT; T_LD; XStructOrUnion 40; XPointer; T_DC] = [4; 8; 8; 8; 16] /\
-  map arg_by_reference [T_INT; T_LD; XStructOrUnion 40; XPointer; T_DC] = [false; true; true; false; false].
+  size_of_a 1 (XStruct 40) = 40 /\ size_of_a 7 (XStruct 40) = 56 /\
+  map store_bytes [T_INT; T_LD; XStruct 40; XPointer; T_DC; XUnion 4; XUnion 16] = [4; 8; 8; 8; 16; 8; 8] /\
+  map arg_by_reference [T_INT; T_LD; XStruct 40; XPointer; T_DC; XUnion 4; XUnion 16] = [false; true; true; false; false; true; true] /\
+  size_of_a 0 (XUnion 16) = 16.
 Proof. vm_compute. repeat split; reflexivity. Qed.
 
 Example C14_hyps_satisfiable :
-  Forall wf_xtype [T_INT; T_LD; XStructOrUnion 40; XPointer] /\ wf_xtype T_DC /\
-  Forall (fun a => is_double_complex a = false) [T_INT; T_LD; XStructOrUnion 40; XPointer].
+  Forall wf_xtype [T_INT; T_LD; XStruct 40; XPointer] /\ wf_xtype T_DC /\
+  Forall (fun a => is_double_complex a = false) [T_INT; T_LD; XStruct 40; XPointer].
 Proof.
   split; [| split].
   - repeat constructor; cbn; try discriminate; intros; try discriminate;
